@@ -214,69 +214,64 @@ theorem evict_limInv (s : St) (k sn : Nat) (h : LimInv s) : LimInv (evict s k sn
 /-- invariant of every run: the limits hold and (KEEP_LAST) no instance exceeds the depth -/
 def WInv (s : St) : Prop := QosOk s.qos ∧ LimInv s ∧ (∀ d, s.qos.depth = some d → LenOk d s.insts)
 
-theorem methodWrite_winv (s : St) (k : Nat) (v : Int) (ts now : Int) (h : WInv s) : WInv (methodWrite s k v ts now).1 := by
+theorem evictWrite_winv (s : St) (k : Nat) (v : Int) (ts now : Int) (sn : Nat) (h : WInv s)
+    (hff : fullFront s k = some sn) : WInv (evictWrite s k v ts now sn).1 := by
   obtain ⟨hq, hl, hd⟩ := h
-  have hdep : ∀ d, s.qos.depth = some d → DepthInv d (methodWrite s k v ts now).1 :=
-    fun d hdd => methodWrite_depth d (hq.1 d hdd) s k v ts now ⟨hdd, hd d hdd⟩
-  unfold methodWrite at hdep ⊢
+  unfold evictWrite
+  split
+  · exact ⟨hq, hl, hd⟩
+  · simp only [entOut]
+    refine ⟨by rw [entWrite_qos]; exact hq, ?_, ?_⟩
+    · refine entWrite_limInv (evict s k sn) k v ts now hq (evict_limInv s k sn hl) ?_
+      intro d hdd
+      exact evict_room hdd (hq.1 d hdd) hff
+    · intro d hdd
+      rw [entWrite_qos] at hdd
+      exact entWrite_lenOk d _ k v ts now (hq.1 d hdd) (popFront_lenOk d k _ (hd d hdd)) (evict_room hdd (hq.1 d hdd) hff)
+
+theorem methodWrite_winv (s : St) (k : Nat) (v : Int) (ts now : Int) (h : WInv s) : WInv (methodWrite s k v ts now).1 := by
+  have h0 := h
+  obtain ⟨hq, hl, hd⟩ := h
+  unfold methodWrite
   split
   · rename_i sn hff
     split
     · split
+      · exact h0
       · exact ⟨hq, hl, hd⟩
-      · exact ⟨hq, hl, hd⟩
-    · rename_i hb
-      simp only [hff, hb, entOut] at hdep ⊢
-      refine ⟨by rw [entWrite_qos]; exact hq, ?_, ?_⟩
-      · refine entWrite_limInv (evict s k sn) k v ts now hq (evict_limInv s k sn hl) ?_
-        intro d hdd
-        exact evict_room hdd (hq.1 d hdd) hff
-      · intro d hdd
-        rw [entWrite_qos] at hdd
-        exact (hdep d hdd).2
+    · exact evictWrite_winv s k v ts now sn h0 hff
   · rename_i hff
-    simp only [hff, entOut] at hdep ⊢
+    simp only [entOut]
     refine ⟨by rw [entWrite_qos]; exact hq, ?_, ?_⟩
     · refine entWrite_limInv s k v ts now hq hl ?_
       intro d hdd
       exact fullFront_none_room hdd (hq.1 d hdd) (hd d hdd) hff
     · intro d hdd
       rw [entWrite_qos] at hdd
-      exact (hdep d hdd).2
+      exact entWrite_lenOk d s k v ts now (hq.1 d hdd) (hd d hdd) (fullFront_none_room hdd (hq.1 d hdd) (hd d hdd) hff)
 
 theorem processPending_winv (s : St) (now : Int) (h : WInv s) : WInv (processPending s now).1 := by
+  have h0 := h
   obtain ⟨hq, hl, hd⟩ := h
-  have hdep : ∀ d, s.qos.depth = some d → DepthInv d (processPending s now).1 :=
-    fun d hdd => processPending_depth d (hq.1 d hdd) s now ⟨hdd, hd d hdd⟩
-  unfold processPending at hdep ⊢
+  unfold processPending
   split
-  · exact ⟨hq, hl, hd⟩
+  · exact h0
   · rename_i p hp
-    simp only [hp] at hdep
     split
-    · rename_i hcw
-      simp only [hcw, if_true] at hdep
-      split
+    · split
       · rename_i sn hff
-        simp only [hff, entOut] at hdep ⊢
-        refine ⟨by rw [entWrite_qos]; exact hq, ?_, ?_⟩
-        · refine entWrite_limInv (evict { s with pending := none } p.key sn) p.key p.val p.ts now hq
-            (evict_limInv { s with pending := none } p.key sn hl) ?_
-          intro d hdd
-          exact evict_room (s := { s with pending := none }) hdd (hq.1 d hdd) hff
-        · intro d hdd
-          rw [entWrite_qos] at hdd
-          exact (hdep d hdd).2
+        exact evictWrite_winv { s with pending := none } p.key p.val p.ts now sn ⟨hq, hl, hd⟩ hff
       · rename_i hff
-        simp only [hff, entOut] at hdep ⊢
+        simp only [entOut]
         refine ⟨by rw [entWrite_qos]; exact hq, ?_, ?_⟩
         · refine entWrite_limInv { s with pending := none } p.key p.val p.ts now hq hl ?_
           intro d hdd
           exact fullFront_none_room (s := { s with pending := none }) hdd (hq.1 d hdd) (hd d hdd) hff
         · intro d hdd
           rw [entWrite_qos] at hdd
-          exact (hdep d hdd).2
-    · exact ⟨hq, hl, hd⟩
+          exact entWrite_lenOk d { s with pending := none } p.key p.val p.ts now (hq.1 d hdd) (hd d hdd)
+            (fullFront_none_room (s := { s with pending := none }) hdd (hq.1 d hdd) (hd d hdd) hff)
+    · exact h0
 
 /-- a step that only touches history / proxies / pending keeps the invariant -/
 theorem winv_of_frame {s s' : St} (h : WInv s) (hq : s'.qos = s.qos) (hi : s'.insts = s.insts) : WInv s' := by
